@@ -593,7 +593,15 @@ def stage_sql(ctx, rng, d, gverif, gmodel):
                              else "set operation binds although the modelled rule finds no common type", "sql": x, "stmts": setup + ["describe " + x, x], "describe": ds})
             continue
         outs = mo.split()
-        want = [items[a] if o.split(":")[1] in ("n", "r") else items[b] for a, b, o in zip(l, r0, outs)]
+        want = []
+        for a, b, o in zip(l, r0, outs):
+            ty, sd = o.split(":")
+            parts = ty.split("/")
+            nm = names[int(parts[0])]
+            if nm in ("Decimal64", "Decimal128") and len(parts) == 3:
+                want.append("%s(%s,%s)" % (nm, parts[1], parts[2]))      # the unified decimal may be neither branch's type
+            else:
+                want.append(items[a] if sd in ("n", "r") else items[b])
         if ds is None:
             viol.append({"kind": "set operation fails to bind although the modelled rule unifies", "sql": x, "model": mo, "result": str(r)[:300]})
         elif [c[1] for c in ds] != want:
@@ -803,9 +811,9 @@ def run(ctx):
     machinery = []
     # the model runs over src_params: every constant it is built from must have been found
     need = ["no_cast_score", "refined_literal_bonus", "default_score_i8", "default_score_i16", "default_score_i32", "default_score_i64"]
-    missing = [k for k in need if d.get(k) is None] + [k for k in ("variadic_same_score", "setop_full_type_equality", "setop_arity_check") if d["_src"].get(k) is None] + \
+    missing = [k for k in need if d.get(k) is None] + [k for k in ("variadic_same_score", "setop_full_type_equality", "setop_arity_check", "setop_decimal_rule", "dec64_max_precision", "dec128_max_precision") if d["_src"].get(k) is None] + \
               [n for n in ("Any", "Int8", "Int16", "Int32", "Int64") if n not in d["type_ids"]]
-    params_ok = not [k for k in missing if not k.startswith("setop_")]
+    params_ok = not [k for k in missing if not (k.startswith("setop_") or k.startswith("dec"))] and "Decimal64" in d["type_ids"] and "Decimal128" in d["type_ids"]
     gmodel = None
     try:
         gmodel = common.build_ocaml("typing")
